@@ -118,6 +118,19 @@ def raised_in_production(tb_text):
     return bool(re.search(r'File "[^"]*/nuspacesim/[^"]*\.py"', tb_text))
 
 
+def fresh_process_candidates(pid, tier, seed):
+    """clauses of the unlisted candidates an exploration raises in an interpreter of its own (None if it could not run)"""
+    import subprocess
+    import sys
+
+    env = dict(os.environ, VERIF_SEED=str(seed))
+    r = subprocess.run([sys.executable, "-m", "nssmc", pid, "--tier", tier, "--candidates-only"], capture_output=True, text=True, env=env, cwd=str(ROOT))
+    for line in r.stdout.splitlines():
+        if line.startswith("CANDIDATES:"):
+            return json.loads(line[11:])
+    return None
+
+
 def replay_explorer(module, case):
     """generic replay for an exploration that was aborted by a production exception: run the explorer again"""
     import traceback
@@ -300,6 +313,14 @@ class Ctx:
             # clause that both re-runs raise again (on cases that are not known findings) is a violation.
             ecase = {"kind": "__explorer__", "tier": self.tier, "seed": self.seed}
             again = [{c for c, _, _ in replay_explorer(self.module, ecase)} for _ in range(2)]
+            if not all(all(clause in a for a in again) for clause in self.context_missing):
+                # production code may have left THIS process in a state in which the violation no longer shows (a
+                # process-wide table corrupted a little more by every call, say): repeat the exploration in two FRESH
+                # interpreters and take the clauses both of them raise
+                fresh = [fresh_process_candidates(self.pid, self.tier, self.seed) for _ in range(2)]
+                if all(f is not None for f in fresh):
+                    ecase = {"kind": "__explorer_fresh__", "tier": self.tier, "seed": self.seed}
+                    again = [set(f) for f in fresh]
             for clause, (exp, obs) in self.context_missing.items():
                 if all(clause in a for a in again):
                     d = REPLAY_DIR / self.pid
@@ -371,7 +392,13 @@ def _short(x, n=200):
 def run_replay(module, path):
     rec = json.loads(Path(path).read_text())
     case = unjson(rec["case"])
-    res = replay_explorer(module, case) if isinstance(case, dict) and case.get("kind") == "__explorer__" else module.replay(case)
+    if isinstance(case, dict) and case.get("kind") == "__explorer_fresh__":
+        got = fresh_process_candidates(module.PID, case.get("tier", "quick"), int(case.get("seed", 0))) or []
+        res = [(c, rec.get("expected"), rec.get("observed")) for c in got if c == rec.get("clause")]
+    elif isinstance(case, dict) and case.get("kind") == "__explorer__":
+        res = replay_explorer(module, case)
+    else:
+        res = module.replay(case)
     clauses = sorted({c for c, _, _ in res})
     if res:
         for c, e, o in res:
